@@ -1,4 +1,3 @@
-\* value family, <=3 values, all two-scope layouts, graph and function tops, step by step
 CONSTANTS
   Layouts = {0, 1, 2, 3, 5, 6, 7, 8}
   Tops = {"graph", "function"}
@@ -9,7 +8,7 @@ CONSTANTS
   OutKinds = {"out", "init"}
   VPoolB = {"<none>", "v", "v_1"}
   NPoolB = {"n"}
-  SmallStep = TRUE
+  SmallStep = FALSE
   EmitOn = TRUE
 SPECIFICATION Spec
 INVARIANT Emit
